@@ -132,6 +132,7 @@ def profiles(eq, mesh, spec):
                         float((eq.psi(eq.x_point.R, eq.x_point.Z + h) - eq.psi(eq.x_point.R, eq.x_point.Z - h)) / (2 * h))]
     out["psi_at_o"] = float(eq.psi(eq.o_point.R, eq.o_point.Z))
     out["psi_at_x"] = float(eq.psi(eq.x_point.R, eq.x_point.Z))
+    out["psi_at_all_x"] = [float(eq.psi(p.R, p.Z)) for p in getattr(eq, "x_points", [])]
     return out
 
 
